@@ -239,6 +239,38 @@ func vfRunReset(t *testing.T, spec *vfSpec, res *vfRes) {
 					case ir.backEnd = <-back:
 						tm.Stop()
 					case <-tm.C:
+						for sd := 0; sd < 2; sd++ {
+							if a := sim.getAssoc(sd); a != nil {
+								a.lock.RLock()
+								var rs []string
+								for rsn, rc := range a.reconfigs {
+									if rq, ok := rc.paramA.(*paramOutgoingResetRequest); ok {
+										rs = append(rs, fmt.Sprintf("rsn=%d last=%d sids=%v", rsn, rq.senderLastTSN, rq.streamIdentifiers))
+									}
+								}
+								var in []string
+								for rsn, rq := range a.reconfigRequests {
+									in = append(in, fmt.Sprintf("rsn=%d last=%d sids=%v", rsn, rq.senderLastTSN, rq.streamIdentifiers))
+								}
+								stDesc := "absent"
+								if st, ok := a.streams[sid]; ok {
+									st.lock.RLock()
+									stDesc = fmt.Sprintf("state=%d readErr=%v", st.state, st.readErr)
+									st.lock.RUnlock()
+								}
+								inf := ""
+								for i := 0; i < a.inflightQueue.size() && i < 12; i++ {
+									c := a.inflightQueue.chunks.At(i)
+									inf += fmt.Sprintf(" [tsn=%d sid=%d len=%d nSent=%d acked=%v aband=%v rtx=%v]", c.tsn, c.streamIdentifier, len(c.userData), c.nSent, c.acked, c.abandoned(), c.retransmit)
+								}
+								res.witness("side %d: cwnd=%d rwnd=%d credit=%d t3running=%v t3nRtos=%d ackState=%d inFR=%v willRtxFast=%v tlr=%v inflight:%s", sd, a.CWND(), a.RWND(), a.getMyReceiverWindowCredit(), a.t3RTX.isRunning(), a.t3RTX.nRtos, a.ackState, a.inFastRecovery, a.willRetransmitFast, a.tlrActive, inf)
+								res.witness("side %d: state=%d outstanding own requests=%v tReconfig running=%v; pending peer requests=%v; peerLastTSN=%d myNextTSN=%d cumAck=%d inflight=%d pending=%d; stream %d: %s", sd, a.getState(), rs, a.tReconfig.isRunning(), in, a.peerLastTSN(), a.myNextTSN, a.cumulativeTSNAckPoint, a.inflightQueue.size(), a.pendingQueue.size(), sid, stDesc)
+								a.lock.RUnlock()
+							}
+						}
+						wst.lock.RLock()
+						res.witness("closing side's stream object: state=%d readErr=%v", wst.state, wst.readErr)
+						wst.lock.RUnlock()
 						res.violate("C14", "close/no-eof-back", "incarnation %d of stream %d: the closing side never saw the peer's reset (EOF) within %v", inc, sid, limit)
 
 						return
@@ -510,6 +542,11 @@ func vfGenResetSpecs(tier string, seed uint64, race bool) []vfSpec {
 			l.DupPm = r.Pick(0, 100)
 		case "harsh":
 			l.LossPm, l.DupPm, l.JitterUs = 150, 80, l.DelayUs*3
+		}
+		if l.LossPm > 0 {
+			// stochastic loss stops after a while: under permanent 15 % loss a sender with a 256-byte MTU crawls at one
+			// chunk per RTO (legitimately) and a large program would need hours of virtual time
+			l.HealUs = int64(r.Pick(20, 60, 120)) * 1000000
 		}
 		sp.Link = l
 		sp.X = map[string]int64{
